@@ -268,12 +268,18 @@ if sys.argv[2] == "pipe":
 cases = json.loads(sys.stdin.read())
 res = []
 real_out = sys.stdout
-for n, H, typed in cases:
+for k, (n, H, typed) in enumerate(cases):
     sys.stdin = io.StringIO("".join(t + "\n" for t in typed))
     out = io.StringIO()
     sys.stdout = out
     try:
-        UIScreen(screen_height=H)._print_widget(W(["l%d" % i for i in range(n)]))
+        scr = UIScreen(screen_height=H)
+        if k % 2:
+            # every other screen hides what the user types for ITS prompt (a password screen): the "press ENTER to continue"
+            # prompts between the pages are ordinary console reads all the same, the password function is not asked
+            scr.hide_user_input = True
+            scr.password_func = lambda prompt: "<<password function asked: %r>>" % (prompt,)
+        scr._print_widget(W(["l%d" % i for i in range(n)]))
         st = "done"
     except Exception as e:
         st = "exc:" + type(e).__name__
